@@ -2,7 +2,7 @@ import Asn1Proofs.Lemmas.X690Complete
 import Asn1Model.X690Strict
 /-
   C04 completeness of the code's BER decoder w.r.t. the strict reference decoder `decVS`
-  (reference decoder minus the two named deviations): statement shape and shared facts.
+  (reference decoder minus the named deviation `dirtyUnusedBits`): statement shape and shared facts.
 
   `extra` is whatever follows in the input of the code's decoder: the reference decoder cuts the
   contents of a definite-length constructed encoding out of the input before it parses them, the
